@@ -901,6 +901,25 @@ def run(chk):
     }
 
     flows = {}
+    callers_memo = {}
+
+    def only_called_from_allowed(g, depth=0):
+        """a private helper of the escape decoder that is called from nowhere but the allow-listed digit converters (which hand it their own
+        digit buffer) converts the same validated digits"""
+        k_ = fkey(g)
+        if k_ in callers_memo:
+            return callers_memo[k_]
+        callers_memo[k_] = False
+        sites = []
+        for h in pfns:
+            if h.get("cls") != g.get("cls") or h is g:
+                continue
+            for x in walk(h["body"]):
+                if x.get("k") == "call" and x.get("fn") is not None and prog.fn_by_id(h, x["fn"]) is g:
+                    sites.append(h)
+        ok_ = bool(sites) and all(h["name"] in ALLOW4 or (depth < 2 and only_called_from_allowed(h, depth + 1)) for h in sites)
+        callers_memo[k_] = ok_
+        return ok_
 
     def site_filter(g, n, types):
         d0 = prog.decl(g, n.get("fn")) if n.get("fn") is not None else None
@@ -920,7 +939,7 @@ def run(chk):
                             c = r.get("v")
                             if (a["op"] == "!=" and not t and c > kidx) or (a["op"] == "==" and t and c > kidx) or (a["op"] == ">" and t and c >= kidx) or (a["op"] == ">=" and t and c > kidx):
                                 return types - {"std::out_of_range"}
-        if g["name"] in ALLOW4 and strip_targs(g.get("cls") or "").endswith("::Char_Parser"):
+        if strip_targs(g.get("cls") or "").endswith("::Char_Parser") and (g["name"] in ALLOW4 or only_called_from_allowed(g)):
             d = prog.decl(g, n.get("fn")) if n.get("fn") is not None else None
             if d is not None and not d.get("inroot") and d["name"] in ("stoll", "stoul", "stoull", "stol"):
                 return set()
